@@ -276,9 +276,11 @@ def run(chk: Check, eng: Engine) -> None:
     chk.rule("R15-d", "the reader's grammar has the precedence shape the argument relies on", floor=4)
     chk.not_decided += ["regex quoting branches of Terminal.format_as_spec", "party annotations", "that a derivable constraint text is read back with the same grouping (R15-f decides derivability only)"]
     chk.rule("R15-f", "what the printers of searches and constraints emit - for every class the reader can put into each field - is derivable from the rule the reader "
-             "uses for that construct (`selector_length` for a search, `constraint` for each line FandangoSpec.__repr__ writes)", floor=40)
+             "uses for that construct (`expression` for a search, `constraint` for each line FandangoSpec.__repr__ writes)", floor=40)
     from .c15_syntax import printer_reader_rule
     printer_reader_rule(chk, eng, "R15-f")
+    chk.rule("R15-g", "a printer of expression text puts the <symbol> references back through the placeholder map stored next to the text", floor=3)
+    placeholder_map_rule(chk, eng, "R15-g")
     chk.rule("R15-e", "no printer (format_as_spec and what it calls) is memoised by a decorator whose key - self by __eq__/__hash__, the arguments - "
              "leaves out something the printer reads", floor=1)
     from .common_memo import decorated_memo_rule
@@ -439,14 +441,8 @@ def run(chk: Check, eng: Engine) -> None:
         # bytes branch: repr() + un-doubling of backslashes is the documented inverse pair (every backslash is doubled by repr)
         if isinstance(n.func, ast.Attribute) and n.func.attr == "replace" and len(n.args) == 2 and all(isinstance(a, ast.Constant) for a in n.args):
             a0, a1 = n.args[0].value, n.args[1].value  # type: ignore[union-attr]
-            if a0 == "\\\\" and a1 == "\\":
-                recv = n.func.value
-                from_repr = isinstance(recv, ast.Name) and any(isinstance(d, ast.Assign) and isinstance(d.value, ast.Call) and call_name(d.value) == "repr" and
-                                                               any(isinstance(t, ast.Name) and t.id == recv.id for t in d.targets) for d in ast.walk(regex_branch[0]))
-                if from_repr:
-                    n_d += 1
-                    chk.ok("R15-d", fas.fq, n.lineno, "`.replace(r'\\\\', '\\')` undoes exactly the doubling repr() applied to every backslash")
-                    continue
+            # (un-doubling the backslashes of repr() output with str.replace is context-free as well: repr() also escapes the quote it has to,
+            #  and after the un-doubling `\\\'` (backslash, escaped quote) reads `\\'` - the quote ends the raw literal.  No exemption.)
             n_d += 1
             chk.bad("R15-d", eng.relfile(fas), n.lineno, fas.fq, f"`{short(n, 70)}` rewrites regex source with a context-free str.replace",
                     "a character that is already escaped (or follows an escaped backslash) is rewritten the same way as a bare one: the printed regex denotes another language",
@@ -471,9 +467,31 @@ def run(chk: Check, eng: Engine) -> None:
                 nxt = flat[i + 1]
                 if str(op) == "MAX_REPEAT" and av[0] == 0 and str(av[1]) == "MAXREPEAT" and [(str(o), a) for o, a in av[2]] == [("LITERAL", 92)] and str(nxt[0]) == "LITERAL":
                     sees_run = True
+
+            def backslash_run(items) -> bool:
+                """an unbounded repetition whose body consists of backslashes only, somewhere in the pattern (groups and branches included)"""
+                for op, av in items:
+                    o = str(op)
+                    if o == "MAX_REPEAT" and str(av[1]) == "MAXREPEAT":
+                        inner = list(av[2])
+                        while len(inner) == 1 and str(inner[0][0]) == "SUBPATTERN":
+                            inner = list(inner[0][1][3])
+                        if inner and all(str(io) == "LITERAL" and ia == 92 for io, ia in inner):
+                            return True
+                    if o == "SUBPATTERN" and backslash_run(av[3]):
+                        return True
+                    if o == "BRANCH" and any(backslash_run(b) for b in av[1]):
+                        return True
+                    if o in ("MAX_REPEAT", "MIN_REPEAT") and backslash_run(av[2]):
+                        return True
+                return False
+
+            sees_run = sees_run or backslash_run(tree)
             repl = n.args[1] if len(n.args) > 1 else None
-            parity = repl is not None and isinstance(repl, (ast.Lambda, ast.Name)) and (not isinstance(repl, ast.Lambda) or any(
-                isinstance(x, ast.BinOp) and isinstance(x.op, (ast.FloorDiv, ast.Mod)) for x in ast.walk(repl)))
+            repl_body: Optional[ast.AST] = repl if isinstance(repl, ast.Lambda) else None
+            if isinstance(repl, ast.Name):
+                repl_body = next((d for d in ast.walk(fas.node) if isinstance(d, ast.FunctionDef) and d.name == repl.id), None)
+            parity = repl_body is not None and any(isinstance(x, ast.BinOp) and isinstance(x.op, (ast.FloorDiv, ast.Mod)) for x in ast.walk(repl_body))
             if sees_run and parity:
                 chk.ok("R15-d", fas.fq, n.lineno, f"`re.sub({pat!r}, ...)` sees the whole backslash run and computes the replacement from its length")
             else:
@@ -485,6 +503,53 @@ def run(chk: Check, eng: Engine) -> None:
         raise AnalysisError("Terminal.format_as_spec: the regex branch rewrites nothing any more (R15-d has lost its instances)")
 
 
+def placeholder_map_rule(chk: Check, eng: Engine, rule: str) -> None:
+    """R15-g.  Expression text is stored with fresh variables in place of the `<symbol>` references, next to a map from those variables to what they
+    stand for (`searches`, `nonterminals`).  A printer (`format_as_spec` / `__str__`) that emits such text has to put the references back
+    through that map; one that does not read the map prints internal variable names or whatever it substitutes for them."""
+    MAPS = ("searches", "nonterminals")
+    n = 0
+    for mod in eng.ix.modules.values():
+        if not mod.name.startswith("fandango."):
+            continue
+        for c in mod.classes.values():
+            inits = [k.methods["__init__"] for k in c.mro() if "__init__" in k.methods]
+            str_fields: set[str] = set()
+            maps: set[str] = set()
+            for init in inits:
+                ann = {a.arg: norm(a.annotation) for a in init.node.args.args + init.node.args.kwonlyargs if a.annotation is not None}  # type: ignore[attr-defined]
+                for st in ast.walk(init.node):
+                    if isinstance(st, (ast.Assign, ast.AnnAssign)):
+                        tg = st.targets[0] if isinstance(st, ast.Assign) else st.target
+                        f = self_attr(tg)
+                        if f is None or st.value is None:
+                            continue
+                        srcs = [x.id for x in ast.walk(st.value) if isinstance(x, ast.Name)]
+                        if f in MAPS:
+                            maps.add(f)
+                        elif isinstance(st.value, ast.Name) and ann.get(st.value.id) == "str":
+                            str_fields.add(f)
+            if not maps or not str_fields:
+                continue
+            for pname in ("format_as_spec", "__str__"):
+                m = c.methods.get(pname)
+                if m is None:
+                    continue
+                reads = {self_attr(x) for x in walk_local(m.node) if isinstance(x, ast.Attribute) and isinstance(x.ctx, ast.Load)}
+                text = sorted(reads & str_fields)
+                if not text:
+                    continue
+                n += 1
+                if reads & maps:
+                    chk.ok(rule, m.fq, m.line, f"{c.name}.{pname} prints self.{text[0]} and substitutes through self.{sorted(reads & maps)[0]}")
+                else:
+                    chk.bad(rule, eng.relfile(m), m.line, m.fq, f"{c.name}.{pname} prints `self.{text[0]}` (text with internal variables) without consulting `self.{sorted(maps)[0]}`",
+                            "the symbol references of the expression are not put back: the printed spec shows internal names or a placeholder such as `...`, and reads back as a different program",
+                            keyparts=f"placeholder-map-unused|{c.name}|{pname}")
+    if n < 3:
+        raise AnalysisError(f"only {n} printers of placeholder text found")
+
+
 # ------------------------------------------------------------------ self-test variants
 from ..mutants import M  # noqa: E402
 
@@ -492,10 +557,11 @@ _R = "src/fandango/language/grammar/nodes/repetition.py"
 _A = "src/fandango/language/grammar/nodes/alternative.py"
 _TS = "src/fandango/language/symbols/terminal.py"
 MUTANTS = [
+    M("generator-parameters-elided", "src/fandango/language/grammar/literal_generator.py", "        s = str(self.call)\n        for identifier, nonterminal in self.nonterminals.items():\n            s = s.replace(identifier, nonterminal.format_as_spec())\n        return s\n",
+      "        import re\n        return re.sub(r\"___[0-9a-zA-Z_]+___\", r\"...\", str(self.call))\n", "R15-g"),
     M("quantifier-prints-plain-selection", "src/fandango/constraints/forall.py", "            if not search.startswith(\"*\"):\n                search = \"*\" + search\n", "", "R15-f"),
     M("length-of-star-in-bars", "src/fandango/language/search.py", "        if value.startswith(\"*\"):\n            return f\"len({value})\"\n", "", "R15-f"),
     M("soft-value-under-where", "src/fandango/language/parse/spec.py", "            (\"\" if isinstance(constraint, SoftValue) else \"where \")\n            + constraint.format_as_spec()\n", "            \"where \" + constraint.format_as_spec()\n", "R15-f"),
-    M("item-base-unparenthesised", "src/fandango/language/search.py", "        return f\"{_base_as_spec(self.base)}[{', '.join(slice_reprs)}]\"\n", "        return f\"{self.base.format_as_spec()}[{', '.join(slice_reprs)}]\"\n", "R15-f"),
     M("pair-slice-appended-to-the-list", "src/fandango/language/search.py", "                else:\n                    slice_repr += repr(items)\n", "                else:\n                    slice_reprs += repr(items)\n", "R15-f"),
     M("exists-prints-keyword-form-in-brackets", "src/fandango/constraints/exists.py", "            return f\"any({self.statement.format_as_spec()} for {bound} in {search})\"\n", "            return f\"any[{self.statement.format_as_spec()} for {bound} in {search}]\"\n", "R15-f"),
     M("terminal-printer-memoised-by-value", "src/fandango/language/symbols/terminal.py", "    def format_as_spec(self) -> str:\n        if self.is_regex:\n", "    @lru_cache(maxsize=4096)\n    def format_as_spec(self) -> str:\n        if self.is_regex:\n", "R15-e",
@@ -513,6 +579,7 @@ MUTANTS = [
     M("literal-str-instead-of-repr", _TS, "        # Not a regex\n        return repr(self._value)", "        # Not a regex\n        return \"'\" + str(self._value) + \"'\"", "R15-c"),
 ]
 TWINS = [
+    M("twin-item-base-unparenthesised-is-still-an-expression", "src/fandango/language/search.py", "        return f\"{_base_as_spec(self.base)}[{', '.join(slice_reprs)}]\"\n", "        return f\"{self.base.format_as_spec()}[{', '.join(slice_reprs)}]\"\n", None),
     M("twin-length-printer-conditional-expression", "src/fandango/language/search.py", "        value = self.value.format_as_spec()\n        if value.startswith(\"*\"):\n            return f\"len({value})\"\n        return f\"|{value}|\"\n",
       "        value = self.value.format_as_spec()\n        return f\"len({value})\" if value.startswith(\"*\") else \"|\" + value + \"|\"\n", None),
     M("twin-quantifier-list-comprehension-form", "src/fandango/constraints/forall.py", "            return f\"all({self.statement.format_as_spec()} for {bound} in {search})\"\n", "            return f\"all([{self.statement.format_as_spec()} for {bound} in {search}])\"\n", None),
